@@ -52,8 +52,8 @@ if not os.path.isdir(RUNREPO):
     os.makedirs(os.path.dirname(RUNREPO), exist_ok=True)
     subprocess.run(["git", "-C", "/repo", "worktree", "add", "-q", "--detach", RUNREPO, head], check=True)
 else:
+    subprocess.run(["git", "-C", RUNREPO, "reset", "-q", "--hard"], check=True)
     subprocess.run(["git", "-C", RUNREPO, "checkout", "-q", "--detach", head], check=True)
-    subprocess.run(["git", "-C", RUNREPO, "checkout", "--", "."], check=True)
 rc, out = sh(["git", "-C", RUNREPO, "apply", "--3way", patch], RUNREPO)
 if rc != 0:
     rc, out = sh(["git", "-C", RUNREPO, "apply", patch], RUNREPO)
